@@ -657,6 +657,13 @@ impl TypeSpace {
                 None => {
                     let type_name = if let RefKey::Def(name) = ref_name {
                         Name::Required(name.clone())
+                    } else if let Some(title) = match &schema {
+                        Schema::Object(obj) => obj.metadata.as_ref().and_then(|m| m.title.clone()),
+                        Schema::Bool(_) => None,
+                    } {
+                        // The root type is named by its title; offer that
+                        // name to conversions that do not see the metadata.
+                        Name::Suggested(title)
                     } else {
                         Name::Unknown
                     };
